@@ -374,6 +374,20 @@ class RecDict:
     def pyvc_setitem(self, interp, k, v):
         self.ops.append(("set", k, v))
 
+    def pyvc_getattr(self, interp, name):
+        if name == "setdefault":
+            def setdefault(it, a, kw):
+                k = a[0]
+                default = a[1] if len(a) > 1 else None
+                if self.pyvc_contains(it, k):
+                    return self.pyvc_getitem(it, k)
+                r = RecList(self.name, k)
+                self.ops.append(("setdefault-new", k, default, r))
+                return r
+
+            return Builtin("recdict.setdefault", setdefault)
+        raise Unsupported(f"dict method {name} inside a loop over an abstract collection")
+
 
 def _accumulators(body):
     """names of the containers the loop body mutates: X.append/extend(..), X[k] = .., X[k].append(..)"""
@@ -386,6 +400,8 @@ def _accumulators(body):
                     out.setdefault(v.id, set()).add("list")
                 elif isinstance(v, ast.Subscript) and isinstance(v.value, ast.Name):
                     out.setdefault(v.value.id, set()).add("dict")
+                elif isinstance(v, ast.Call) and isinstance(v.func, ast.Attribute) and v.func.attr in ("setdefault", "get") and isinstance(v.func.value, ast.Name):
+                    out.setdefault(v.func.value.id, set()).add("dict")
             if isinstance(n, (ast.Assign, ast.AugAssign)):
                 for t in (n.targets if isinstance(n, ast.Assign) else [n.target]):
                     if isinstance(t, ast.Subscript) and isinstance(t.value, ast.Name):
@@ -494,6 +510,13 @@ def _groupby_shape(ops):
                 res[k] = ("new", v.parts[0])
             elif isinstance(v, list) and len(v) == 1:
                 res[k] = ("new", v[0])
+            else:
+                res[k] = ("bad", "a new group does not start as the one-element list of the item")
+        elif len(mine) == 2 and mine[0][0] == "in" and mine[0][2] is False and mine[1][0] == "setdefault-new":
+            default, r = mine[1][2], mine[1][3]
+            empty = (isinstance(default, AList) and not default.parts) or (isinstance(default, list) and not default)
+            if empty and len(r.ops) == 1 and r.ops[0][0] == "append":
+                res[k] = ("new", r.ops[0][1])
             else:
                 res[k] = ("bad", "a new group does not start as the one-element list of the item")
         elif len(mine) == 2 and mine[0][0] == "in" and mine[0][2] is True and mine[1][0] == "set":
